@@ -5,6 +5,7 @@ package msgref
 import (
 	"crypto/x509"
 	"encoding/json"
+	"math"
 	"math/rand"
 	"strconv"
 	"strings"
@@ -112,6 +113,33 @@ func Attrs(r *rand.Rand, legacy bool) *message.Attributes {
 	default:
 		a.TouchlessSudo = &message.TouchlessSudo{IsFirefighter: r.Intn(2) == 0, Hosts: str(30), Time: r.Int63n(1<<40) - 1000}
 	}
+	// unusual but legitimate magnitudes, now and then
+	switch r.Intn(24) {
+	case 0:
+		if a.TouchlessSudo == nil {
+			a.TouchlessSudo = &message.TouchlessSudo{Hosts: str(10)}
+		}
+		a.TouchlessSudo.Time = []int64{math.MaxInt64, math.MinInt64, math.MaxInt32, math.MaxInt32 + 1, math.MinInt32 - 1, 1<<53 + 1, -(1<<53 + 1), 0, -1}[r.Intn(9)]
+	case 1:
+		a.Username = strings.Repeat(str(16), 200+r.Intn(2000))
+	case 2:
+		a.Hostname = strings.Repeat(str(8)+".", 100+r.Intn(900)) + "example"
+	case 3:
+		if a.TouchlessSudo == nil {
+			a.TouchlessSudo = &message.TouchlessSudo{}
+		}
+		var hs []string
+		for i := 50 + r.Intn(800); i > 0; i-- {
+			hs = append(hs, "host"+strconv.Itoa(i)+".example.com")
+		}
+		a.TouchlessSudo.Hosts = strings.Join(hs, ",")
+	case 4:
+		if legacy {
+			a.IfVer = []int{math.MinInt32, -1 << 40, 6, 0}[r.Intn(4)]
+		} else {
+			a.IfVer = []int{math.MaxInt32, 1 << 40, 7, 1 << 62}[r.Intn(4)]
+		}
+	}
 	switch r.Intn(4) {
 	case 0:
 	case 1:
@@ -120,6 +148,14 @@ func Attrs(r *rand.Rand, legacy bool) *message.Attributes {
 		a.Exts = map[string]interface{}{}
 		for i := r.Intn(4); i >= 0; i-- {
 			a.Exts[gen.Str(r, 10)] = ExtVal(r, 3)
+		}
+		if r.Intn(40) == 0 {
+			for i := 300 + r.Intn(700); i > 0; i-- {
+				a.Exts["k"+strconv.Itoa(i)] = ExtVal(r, 1)
+			}
+		}
+		if r.Intn(20) == 0 {
+			a.Exts["magnitudes"] = []any{1e308, -1e308, 5e-324, float64(1 << 53), float64(1<<53 + 2), 1e21, 0.1, -0.0}
 		}
 	}
 	return a
